@@ -85,6 +85,7 @@ def make_backend_class():
             self.sync_in_submit = sync_in_submit
             self.hooks = []            # callables(event) for controllers
             self.aborts = 0
+            self.on_batch_completed = None   # optional callable(backend, batch_size), may block (scheduling by the check)
             self.during_abort = None   # optional callable(backend) run once at the start of the next abort_everything
             self.parallel = None
             self.errors = []
@@ -100,6 +101,14 @@ def make_backend_class():
             for h in self.hooks:
                 h(("configure", None))
             return self.effective_n_jobs(n_jobs)
+
+        def batch_completed(self, batch_size, duration):
+            # joblib calls this from a completion callback after the result was registered and before the callback
+            # accounts the completion and dispatches more: a check may park the callback here
+            hook = self.on_batch_completed
+            if hook is not None:
+                hook(self, batch_size)
+            return super().batch_completed(batch_size, duration)
 
         def compute_batch_size(self):
             b = super().compute_batch_size()
